@@ -7,8 +7,18 @@
 //! `lock` file) unchanged; after drop or `kill -9` of the holder the next open succeeds; a
 //! second open racing the first open's recovery (crash image with pending logs) gets Locked
 //! and the recovered content is exactly the committed content.
-//! No model op lines beyond one summary line per case: the tie for C18 is T0 (order
-//! obligations on the generated open / drop skeletons) + these oracle runs.
+//!
+//! MODEL-COMPARED PART (every case, before the racy scenario): a deterministic script of whole
+//! operations (open / open with wrong options / second open inside the same process, optionally from
+//! another thread / commit / get / fingerprint / drop / kill -9 / add_column / drop_last_column /
+//! reset_column / clear_column / directory listing / outside creation and removal of the `lock`
+//! file) over 2-4 server child processes (`c18-child <dir> serve`), one operation at a time, each
+//! printed as a `c18 ...` op line with the canonical result observed on the real crate; the Lean
+//! machine `Pdb.LockDir` (driver command `c18`) replays them.  The script has its own oracle in
+//! plain Rust (holder bookkeeping, directory snapshots around every call that must change nothing,
+//! reference map of the committed content), independent of the Lean model.
+//! The racy scenario that follows stays oracle-only (its interleaving is not reproducible); its
+//! summary line `c18 scenario <name>` -> ok / fail is answered `ok` by the driver.
 use crate::util::*;
 use parity_db::{Db, Options};
 use std::collections::BTreeMap;
@@ -108,6 +118,9 @@ pub fn child_main(args: &[String]) -> i32 {
 		let _ = writeln!(l, "{}", s);
 		let _ = l.flush();
 	};
+	if mode == "serve" {
+		return serve(&dir)
+	}
 	let o = options(&dir, true);
 	let r = if mode == "try-open" { Db::open(&o) } else { Db::open_or_create(&o) };
 	match r {
@@ -190,6 +203,630 @@ impl Kid {
 	}
 }
 
+
+// ------------------------------------------------------------------------------------ scripted part
+
+/// options from column codes (bit0 = uniform, bit1 = btree_index)
+fn opts_of(dir: &Path, cols: &[u8]) -> Options {
+	let mut o = Options::with_columns(dir, cols.len() as u8);
+	for (i, c) in cols.iter().enumerate() {
+		o.columns[i] = col_of(*c);
+	}
+	o.salt = Some([3u8; 32]);
+	o.stats = false;
+	o.with_background_thread = false;
+	o.always_flush = true;
+	o
+}
+
+fn col_of(c: u8) -> parity_db::ColumnOptions {
+	let mut co = parity_db::ColumnOptions::default();
+	co.uniform = c & 1 != 0;
+	co.btree_index = c & 2 != 0;
+	co
+}
+
+fn code_of(co: &parity_db::ColumnOptions) -> u8 {
+	let c = (co.uniform as u8) | ((co.btree_index as u8) << 1);
+	if *co == col_of(c) {
+		c
+	} else {
+		99
+	}
+}
+
+fn parse_cols(s: &str) -> Vec<u8> {
+	if s == "-" {
+		return vec![]
+	}
+	s.split(',').map(|x| x.parse().unwrap()).collect()
+}
+
+fn show_cols(c: &[u8]) -> String {
+	if c.is_empty() {
+		"-".into()
+	} else {
+		c.iter().map(|x| x.to_string()).collect::<Vec<_>>().join(",")
+	}
+}
+
+fn canon_err(e: &parity_db::Error) -> String {
+	match e {
+		parity_db::Error::IncompatibleColumnConfig { id, .. } => format!("err:IncompatibleColumnConfig:{}", id),
+		e => format!("err:{}", err_kind(e)),
+	}
+}
+
+fn val_bytes(v: u64) -> Vec<u8> {
+	let mut b = v.to_le_bytes().to_vec();
+	b.extend_from_slice(&(v.wrapping_mul(0x9E37_79B9_7F4A_7C15) ^ 0xc18).to_le_bytes());
+	b
+}
+
+fn render_val(b: &[u8]) -> String {
+	if b.len() == 16 {
+		let v = u64::from_le_bytes(b[..8].try_into().unwrap());
+		if val_bytes(v) == b {
+			return v.to_string()
+		}
+	}
+	format!("raw{}", hex(b))
+}
+
+const FP_KEYS: u64 = 6;
+
+struct Slot {
+	db: Db,
+	ncols: usize,
+	pending: u32,
+}
+
+/// `pdbverif c18-child <dir> serve`: one command per stdin line, one result line per command.
+///   open <slot> <c|o> <cols> <thread 0/1> | commit <slot> <col> <key> <v|del> <enact 0/1> |
+///   get <slot> <col> <key> | fp <slot> | drop <slot> | add <cols> <code> | droplast <cols> |
+///   reset <cols> <i> <code|-> | clear <i>
+/// EOF: drop every handle and exit.  Handles run WITHOUT background threads; a commit is logged and
+/// flushed (and, when asked or when two log files are pending, enacted and cleaned) before `ok`.
+fn serve(dir: &Path) -> i32 {
+	let out = std::io::stdout();
+	let say = |s: &str| {
+		let mut l = out.lock();
+		let _ = writeln!(l, "{}", s);
+		let _ = l.flush();
+	};
+	let mut slots: BTreeMap<u64, Slot> = BTreeMap::new();
+	let stdin = std::io::stdin();
+	let mut line = String::new();
+	loop {
+		line.clear();
+		match stdin.read_line(&mut line) {
+			Ok(0) | Err(_) => break,
+			_ => {},
+		}
+		let w: Vec<&str> = line.split_whitespace().collect();
+		if w.is_empty() {
+			continue
+		}
+		let res: String = match w[0] {
+			"open" => {
+				let slot: u64 = w[1].parse().unwrap();
+				let o = opts_of(dir, &parse_cols(w[3]));
+				let create = w[2] == "c";
+				let ncols = o.columns.len();
+				let r = if w[4] == "1" {
+					std::thread::spawn(move || if create { Db::open_or_create(&o) } else { Db::open(&o) }).join().unwrap()
+				} else if create {
+					Db::open_or_create(&o)
+				} else {
+					Db::open(&o)
+				};
+				match r {
+					Ok(db) => {
+						slots.insert(slot, Slot { db, ncols, pending: 0 });
+						"ok".into()
+					},
+					Err(e) => canon_err(&e),
+				}
+			},
+			"openro" => {
+				// read-only open (`Db::open_read_only`): takes the same exclusive directory lock
+				let slot: u64 = w[1].parse().unwrap();
+				let o = opts_of(dir, &parse_cols(w[2]));
+				let ncols = o.columns.len();
+				match Db::open_read_only(&o) {
+					Ok(db) => {
+						slots.insert(slot, Slot { db, ncols, pending: 0 });
+						"ok".into()
+					},
+					Err(e) => canon_err(&e),
+				}
+			},
+			"commit" => {
+				let s = slots.get_mut(&w[1].parse().unwrap()).unwrap();
+				let col: u8 = w[2].parse().unwrap();
+				let key = key_of(w[3].parse().unwrap());
+				let v = if w[4] == "del" { None } else { Some(val_bytes(w[4].parse().unwrap())) };
+				let step = |s: &mut Slot| -> parity_db::Result<()> {
+					s.db.commit(vec![(col, key, v)])?;
+					s.db.process_commits()?;
+					s.db.flush_logs()?;
+					s.pending += 1;
+					if w[5] == "1" || s.pending >= 2 {
+						for _ in 0..s.pending {
+							s.db.enact_logs()?;
+						}
+						s.db.clean_logs()?;
+						s.pending = 0;
+					}
+					Ok(())
+				};
+				match step(s) {
+					Ok(()) => "ok".into(),
+					Err(e) => canon_err(&e),
+				}
+			},
+			"get" => {
+				let s = slots.get(&w[1].parse().unwrap()).unwrap();
+				match s.db.get(w[2].parse().unwrap(), &key_of(w[3].parse().unwrap())) {
+					Ok(Some(v)) => format!("some {}", render_val(&v)),
+					Ok(None) => "none".into(),
+					Err(e) => canon_err(&e),
+				}
+			},
+			"fp" => {
+				let s = slots.get(&w[1].parse().unwrap()).unwrap();
+				let mut parts = vec![];
+				for c in 0..s.ncols {
+					for k in 0..FP_KEYS {
+						match s.db.get(c as u8, &key_of(k)) {
+							Ok(Some(v)) => parts.push(format!("{}:{}={}", c, k, render_val(&v))),
+							Ok(None) => {},
+							Err(e) => parts.push(format!("{}:{}={}", c, k, canon_err(&e))),
+						}
+					}
+				}
+				if parts.is_empty() {
+					"-".into()
+				} else {
+					parts.join(",")
+				}
+			},
+			"drop" => {
+				let s = slots.remove(&w[1].parse().unwrap()).unwrap();
+				drop(s);
+				"ok".into()
+			},
+			"add" => {
+				let mut o = opts_of(dir, &parse_cols(w[1]));
+				match Db::add_column(&mut o, col_of(w[2].parse().unwrap())) {
+					Ok(()) => "ok".into(),
+					Err(e) => canon_err(&e),
+				}
+			},
+			"droplast" => {
+				let mut o = opts_of(dir, &parse_cols(w[1]));
+				match Db::drop_last_column(&mut o) {
+					Ok(()) => "ok".into(),
+					Err(e) => canon_err(&e),
+				}
+			},
+			"reset" => {
+				let mut o = opts_of(dir, &parse_cols(w[1]));
+				let new = if w[3] == "-" { None } else { Some(col_of(w[3].parse().unwrap())) };
+				match Db::reset_column(&mut o, w[2].parse().unwrap(), new) {
+					Ok(()) => "ok".into(),
+					Err(e) => canon_err(&e),
+				}
+			},
+			"clear" => match parity_db::clear_column(dir, w[1].parse().unwrap()) {
+				Ok(()) => "ok".into(),
+				Err(e) => canon_err(&e),
+			},
+			_ => "bad-command".into(),
+		};
+		say(&res);
+	}
+	drop(slots);
+	0
+}
+
+
+/// names + sizes + mtimes of everything in the directory except `lock`; content hash of small files
+fn light_snapshot(dir: &Path) -> BTreeMap<String, (u64, u128, u64)> {
+	let mut m = BTreeMap::new();
+	if let Ok(rd) = std::fs::read_dir(dir) {
+		for e in rd.flatten() {
+			let name = e.file_name().to_string_lossy().to_string();
+			if name == "lock" {
+				continue
+			}
+			let md = match e.metadata() {
+				Ok(md) => md,
+				Err(_) => continue,
+			};
+			let mt = md.modified().ok().and_then(|t| t.duration_since(std::time::UNIX_EPOCH).ok()).map(|d| d.as_nanos()).unwrap_or(0);
+			let mut h = 0xcbf2_9ce4_8422_2325u64;
+			if md.len() < (1 << 20) {
+				fnv(&mut h, &std::fs::read(e.path()).unwrap_or_default());
+			}
+			m.insert(name, (md.len(), mt, h));
+		}
+	}
+	m
+}
+
+/// what is really in the directory: `dir=0` | `dir=1 meta=<cols|none> lock=<0|1>` and the stored columns
+fn observe_dir(dir: &Path) -> (String, Option<Vec<u8>>) {
+	if !dir.is_dir() {
+		return ("dir=0".into(), None)
+	}
+	let cols: Option<Vec<u8>> = match Options::load_metadata(dir) {
+		Ok(Some(m)) => Some(m.columns.iter().map(code_of).collect()),
+		_ => None,
+	};
+	let lock = dir.join("lock").exists();
+	(
+		format!("dir=1 meta={} lock={}", cols.as_ref().map(|c| show_cols(c)).unwrap_or("none".into()), if lock { 1 } else { 0 }),
+		cols,
+	)
+}
+
+fn ref_fp(m: &BTreeMap<(u64, u64), u64>) -> String {
+	if m.is_empty() {
+		"-".into()
+	} else {
+		m.iter().map(|(k, v)| format!("{}:{}={}", k.0, k.1, v)).collect::<Vec<_>>().join(",")
+	}
+}
+
+impl Kid {
+	fn cmd(&mut self, line: &str) -> String {
+		match self.stdin.as_mut() {
+			Some(s) =>
+				if s.write_all(format!("{}\n", line).as_bytes()).is_err() || s.flush().is_err() {
+					return "child-gone".into()
+				},
+			None => return "child-gone".into(),
+		}
+		self.line(120).unwrap_or_else(|| "timeout".into())
+	}
+}
+
+/// Deterministic script over server child processes; returns (oracle problems, ok opens, locked results).
+fn scripted(seed: u64, rng: &mut Rng, root: &Path, thorough: bool, t: &mut Trace, ctr: &mut Counters) -> (Vec<String>, u64, u64) {
+	let dir = fresh_dir(root, &format!("c18s-{}", seed));
+	let mut problems: Vec<String> = vec![];
+	let (mut n_ok, mut n_locked) = (0u64, 0u64);
+	t.op("c18 init", "ok");
+	let start = *rng.pick(&["missing", "missing", "empty-dir", "lock-only"]);
+	ctr.inc(&format!("script.start.{}", start));
+	if start != "missing" {
+		std::fs::create_dir_all(&dir).unwrap();
+		t.op("c18 env mkdir", "ok");
+		if start == "lock-only" {
+			std::fs::File::create(dir.join("lock")).unwrap();
+			t.op("c18 env touchlock", "ok");
+		}
+	}
+	// logical process ids are never reused; a killed process is replaced by a new one
+	let nprocs = rng.range(2, 4);
+	let mut kids: BTreeMap<u64, Kid> = BTreeMap::new();
+	let mut alive: Vec<u64> = (0..nprocs).collect();
+	let mut next_pid = nprocs;
+	// oracle bookkeeping (plain Rust, not the Lean model)
+	let mut holder: Option<(u64, u64)> = None;
+	let mut freed_by: Option<&'static str> = None; // the holder just went away by drop / kill
+	let base_cols: Vec<u8> = (0..rng.range(1, 3)).map(|_| rng.below(4) as u8).collect();
+	let mut next_val = 1u64;
+	// reference content (plain Rust): what was committed and not removed by an administration call
+	let mut reference: BTreeMap<(u64, u64), u64> = BTreeMap::new();
+	let nops = if thorough { rng.range(20, 60) } else { rng.range(12, 36) };
+	macro_rules! kid {
+		($pid:expr) => {
+			kids.entry($pid).or_insert_with(|| spawn_kid(&dir, "serve", 0))
+		};
+	}
+	for _ in 0..nops {
+		let (_, stored) = observe_dir(&dir);
+		let right: Vec<u8> = stored.clone().unwrap_or_else(|| base_cols.clone());
+		let pid = *rng.pick(&alive);
+		let choice = rng.below(100);
+		let kind: &str = match holder {
+			Some(_) => match choice {
+				0..=17 => "open",
+				18..=45 => "commit",
+				46..=57 => "get",
+				58..=63 => "fp",
+				64..=71 => "drop",
+				72..=78 => "kill",
+				79..=82 => "ls",
+				_ => "admin",
+			},
+			None => match choice {
+				0..=49 => "open",
+				50..=57 => "kill",
+				58..=67 => "ls",
+				68..=71 => "rmlock",
+				_ => "admin",
+			},
+		};
+		let before = light_snapshot(&dir);
+		let dir_before = observe_dir(&dir).0;
+		let mut failed_op: Option<String> = None; // an op that has to leave the directory alone
+		match kind {
+			"open" => {
+				// second open inside the holder's own process half of the time when one exists
+				let pid = match holder {
+					Some((hp, _)) if rng.chance(1, 2) => hp,
+					_ => pid,
+				};
+				let slot = match holder {
+					Some((hp, hs)) if hp == pid => (hs + 1 + rng.below(2)) % 3,
+					_ => rng.below(3),
+				};
+				let create = rng.chance(1, 2);
+				let wrong = rng.chance(1, 4);
+				let cols: Vec<u8> = if wrong {
+					let mut c = right.clone();
+					match rng.below(3) {
+						0 => c.push(rng.below(4) as u8),
+						1 if c.len() > 1 => {
+							c.pop();
+						},
+						_ => {
+							let i = rng.below(c.len() as u64) as usize;
+							c[i] = (c[i] + 1 + rng.below(3) as u8) % 4;
+						},
+					}
+					c
+				} else {
+					right.clone()
+				};
+				let thread = rng.chance(1, 3);
+				let res = kid!(pid).cmd(&format!("open {} {} {} {}", slot, if create { "c" } else { "o" }, show_cols(&cols), if thread { 1 } else { 0 }));
+				t.op(&format!("c18 open {} {} {} {}", pid, slot, if create { "c" } else { "o" }, show_cols(&cols)), &res);
+				ctr.inc(&format!("script.open{}{}.{}", if wrong { "-wrong-options" } else { "" }, if holder.map(|h| h.0) == Some(pid) { "-same-process" } else { "" }, res.split(':').take(2).collect::<Vec<_>>().join(":")));
+				if res == "ok" {
+					n_ok += 1;
+					if let Some(h) = holder {
+						problems.push(format!("open by process {} succeeded while handle {:?} is alive", pid, h));
+					}
+					if wrong && stored.is_some() {
+						problems.push("open with options that disagree with the metadata succeeded".into());
+					}
+					holder = Some((pid, slot));
+				} else {
+					if res == "err:Locked" {
+						n_locked += 1;
+						if holder.is_none() {
+							problems.push("open reported Locked while no handle is alive".into());
+						}
+					} else if holder.is_some() && !(stored.is_none() && !create) {
+						problems.push(format!("open while a handle is alive reported {} instead of Locked", res));
+					}
+					if holder.is_none() && !wrong && (create || stored.is_some()) {
+						problems.push(format!("open with the right options failed with {} while no handle is alive{}", res,
+							freed_by.map(|w| format!(" (after {} of the holder)", w)).unwrap_or_default()));
+					}
+					failed_op = Some(format!("failed open ({})", res));
+				}
+				if holder.is_none() || res == "ok" {
+					freed_by = None;
+				}
+			},
+			"commit" => {
+				let (hp, hs) = holder.unwrap();
+				let col = rng.below(right.len() as u64);
+				let key = rng.below(FP_KEYS);
+				let del = rng.chance(1, 6);
+				let v = if del {
+					"del".to_string()
+				} else {
+					next_val += 1;
+					next_val.to_string()
+				};
+				let res = kid!(hp).cmd(&format!("commit {} {} {} {} {}", hs, col, key, v, if rng.chance(1, 2) { 1 } else { 0 }));
+				t.op(&format!("c18 commit {} {} {} {} {}", hp, hs, col, key, v), &res);
+				if res == "ok" {
+					if del {
+						reference.remove(&(col, key));
+					} else {
+						reference.insert((col, key), next_val);
+					}
+				}
+				ctr.inc(&format!("script.commit.{}", res));
+			},
+			"get" => {
+				let (hp, hs) = holder.unwrap();
+				let (col, key) = if !reference.is_empty() && rng.chance(2, 3) {
+					*reference.keys().nth(rng.below(reference.len() as u64) as usize).unwrap()
+				} else {
+					(rng.below(right.len() as u64), rng.below(FP_KEYS))
+				};
+				let res = kid!(hp).cmd(&format!("get {} {} {}", hs, col, key));
+				let want = reference.get(&(col, key)).map(|v| format!("some {}", v)).unwrap_or("none".into());
+				if res != want {
+					problems.push(format!("get col {} key {} returned {} but {} was committed", col, key, res, want));
+				}
+				ctr.inc(&format!("script.get.{}", res.split(' ').next().unwrap_or("")));
+				t.op(&format!("c18 get {} {} {} {}", hp, hs, col, key), &res);
+			},
+			"fp" => {
+				let (hp, hs) = holder.unwrap();
+				let res = kid!(hp).cmd(&format!("fp {}", hs));
+				ctr.inc(if res == "-" { "script.fp.empty" } else { "script.fp.nonempty" });
+				if res != ref_fp(&reference) {
+					problems.push(format!("content through the live handle is {} but {} was committed", res, ref_fp(&reference)));
+				}
+				t.op(&format!("c18 fp {} {}", hp, hs), &res);
+			},
+			"drop" => {
+				let (hp, hs) = holder.unwrap();
+				let res = kid!(hp).cmd(&format!("drop {}", hs));
+				ctr.inc(&format!("script.drop.{}", res));
+				t.op(&format!("c18 drop {} {}", hp, hs), &res);
+				holder = None;
+				freed_by = Some("drop");
+			},
+			"kill" => {
+				// kill -9 of the holder's process (most of the time when there is one) or of another one
+				let victim = match holder {
+					Some((hp, _)) if rng.chance(2, 3) => hp,
+					_ => pid,
+				};
+				if let Some(mut k) = kids.remove(&victim) {
+					let _ = k.child.kill();
+					let _ = k.child.wait();
+				}
+				alive.retain(|p| *p != victim);
+				alive.push(next_pid);
+				next_pid += 1;
+				ctr.inc(if holder.map(|h| h.0) == Some(victim) { "script.kill.holder" } else { "script.kill.other" });
+				t.op(&format!("c18 kill {}", victim), "ok");
+				if holder.map(|h| h.0) == Some(victim) {
+					holder = None;
+					freed_by = Some("kill -9");
+				} else {
+					failed_op = Some("kill of a process without a handle".into());
+				}
+			},
+			"ls" => {
+				ctr.inc("script.ls");
+				t.op("c18 ls", &dir_before);
+			},
+			"rmlock" => {
+				if dir.join("lock").exists() {
+					std::fs::remove_file(dir.join("lock")).unwrap();
+					ctr.inc("script.env.rmlock");
+					t.op("c18 env rmlock", "ok");
+				}
+			},
+			_ => {
+				let wrong = rng.chance(1, 6);
+				let mut cols = right.clone();
+				if wrong {
+					let i = rng.below(cols.len() as u64) as usize;
+					cols[i] = (cols[i] + 1) % 4;
+				}
+				let (line, child_line, name) = match rng.below(4) {
+					0 => {
+						let c = rng.below(4);
+						(format!("c18 add {} {} {}", pid, show_cols(&cols), c), format!("add {} {}", show_cols(&cols), c), "add_column")
+					},
+					1 if cols.len() >= 2 =>
+						(format!("c18 droplast {} {}", pid, show_cols(&cols)), format!("droplast {}", show_cols(&cols)), "drop_last_column"),
+					2 => {
+						let i = if rng.chance(1, 6) { cols.len() as u64 } else { rng.below(cols.len() as u64) };
+						let c = if rng.chance(1, 2) { "-".to_string() } else { rng.below(4).to_string() };
+						(format!("c18 reset {} {} {} {}", pid, show_cols(&cols), i, c), format!("reset {} {} {}", show_cols(&cols), i, c), "reset_column")
+					},
+					_ => {
+						let i = if rng.chance(1, 6) { cols.len() as u64 } else { rng.below(cols.len() as u64) };
+						(format!("c18 clear {} {}", pid, i), format!("clear {}", i), "clear_column")
+					},
+				};
+				let res = kid!(pid).cmd(&child_line);
+				if res == "ok" {
+					let w: Vec<&str> = child_line.split(' ').collect();
+					match name {
+						"drop_last_column" => {
+							let c = cols.len() as u64 - 1;
+							reference.retain(|k, _| k.0 != c);
+						},
+						"reset_column" | "clear_column" => {
+							let c: u64 = w[if name == "reset_column" { 2 } else { 1 }].parse().unwrap();
+							reference.retain(|k, _| k.0 != c);
+						},
+						_ => {},
+					}
+				}
+				ctr.inc(&format!("script.{}{}.{}", name, if holder.is_some() { "-while-held" } else { "" }, res.split(':').take(2).collect::<Vec<_>>().join(":")));
+				t.op(&line, &res);
+				if holder.is_some() {
+					if res == "ok" {
+						problems.push(format!("{} succeeded while handle {:?} is alive", name, holder));
+					} else if res == "err:Locked" {
+						n_locked += 1;
+					}
+					failed_op = Some(format!("{} while a handle is alive ({})", name, res));
+				} else if res == "err:Locked" {
+					problems.push(format!("{} reported Locked while no handle is alive", name));
+				}
+			},
+		}
+		if let Some(what) = failed_op {
+			let after = light_snapshot(&dir);
+			if before != after {
+				let changed: Vec<&String> = after.keys().chain(before.keys()).filter(|k| before.get(*k) != after.get(*k)).collect();
+				problems.push(format!("{} changed the directory: {:?}", what, changed));
+			}
+			let d2 = observe_dir(&dir).0;
+			// the only admissible difference is the `lock` file created by the attempt
+			if d2.replace("lock=1", "lock=0") != dir_before.replace("lock=1", "lock=0") {
+				problems.push(format!("{} changed the directory listing: {} -> {}", what, dir_before, d2));
+			}
+		}
+	}
+	// closing observation: listing, then a reopen with the stored options reads the fingerprint
+	let (l, stored) = observe_dir(&dir);
+	t.op("c18 ls", &l);
+	if let Some((hp, hs)) = holder {
+		let res = kid!(hp).cmd(&format!("fp {}", hs));
+		t.op(&format!("c18 fp {} {}", hp, hs), &res);
+		if res != ref_fp(&reference) {
+			problems.push(format!("final content through the live handle is {} but {} was committed", res, ref_fp(&reference)));
+		}
+		let res = kid!(hp).cmd(&format!("drop {}", hs));
+		t.op(&format!("c18 drop {} {}", hp, hs), &res);
+	}
+	if let Some(cols) = stored.clone() {
+		let pid = alive[0];
+		let res = kid!(pid).cmd(&format!("open 0 o {} 0", show_cols(&cols)));
+		t.op(&format!("c18 open {} 0 o {}", pid, show_cols(&cols)), &res);
+		if res == "ok" {
+			n_ok += 1;
+			let res = kid!(pid).cmd("fp 0");
+			t.op(&format!("c18 fp {} 0", pid), &res);
+			if res != ref_fp(&reference) {
+				problems.push(format!("content after the final reopen is {} but {} was committed", res, ref_fp(&reference)));
+			}
+			let res = kid!(pid).cmd("drop 0");
+			t.op(&format!("c18 drop {} 0", pid), &res);
+		} else {
+			problems.push(format!("final open with the stored options failed: {}", res));
+		}
+	}
+	// read-only handles (oracle only; seeded C18-c18e gave read-only opens a SHARED lock): while a read-only handle is
+	// alive every other open - read-only or not, same process or another - is refused with Locked, and vice versa
+	if let Some(cols) = &stored {
+		let (a, b) = (alive[0], alive[alive.len() - 1]);
+		let cs = show_cols(cols);
+		let mut probe = |who: u64, cmd: String, want: &str, what: &str, problems: &mut Vec<String>| {
+			let res = kids.entry(who).or_insert_with(|| spawn_kid(&dir, "serve", 0)).cmd(&cmd);
+			ctr.inc(&format!("script.readonly.{}", res.split(':').take(2).collect::<Vec<_>>().join(":")));
+			if res != want {
+				problems.push(format!("read-only probe: {} returned {} instead of {}", what, res, want));
+			}
+		};
+		probe(a, format!("openro 1 {}", cs), "ok", "open_read_only with no handle alive", &mut problems);
+		probe(b, format!("openro 1 {}", cs), "err:Locked", "a second open_read_only (other process) while a read-only handle is alive", &mut problems);
+		probe(a, format!("openro 2 {}", cs), "err:Locked", "a second open_read_only (same process) while a read-only handle is alive", &mut problems);
+		probe(b, format!("open 2 o {} 0", cs), "err:Locked", "open while a read-only handle is alive", &mut problems);
+		probe(a, "drop 1".to_string(), "ok", "drop of the read-only handle", &mut problems);
+		probe(b, format!("open 1 o {} 0", cs), "ok", "open after the read-only handle was dropped", &mut problems);
+		probe(a, format!("openro 2 {}", cs), "err:Locked", "open_read_only while a writing handle is alive", &mut problems);
+		probe(b, "drop 1".to_string(), "ok", "drop of the writing handle", &mut problems);
+		t.comment("read-only probe done");
+	}
+	for (_, k) in std::mem::take(&mut kids) {
+		let mut k = k;
+		k.stdin.take(); // EOF: the server drops its handles and exits
+		k.finish();
+	}
+	let _ = std::fs::remove_dir_all(&dir);
+	(problems, n_ok, n_locked)
+}
+
 /// A database with `n` keys of which the last commits are only in flushed, not yet enacted log
 /// files (crash image taken as in p1.rs): opening it has to replay them.
 fn make_crash_image(root: &Path, seed: u64, rng: &mut Rng, n: u64, big: usize) -> PathBuf {
@@ -233,6 +870,18 @@ pub fn run(seeds: &[u64], thorough: bool, root: &Path, t: &mut Trace, ctr: &mut 
 		let mut problems: Vec<String> = vec![];
 		let mut ok_opens = 0u64;
 		let mut locked = 0u64;
+		{
+			let mut srng = Rng::new(seed ^ 0x5c18_5c18);
+			let (p, o, l) = scripted(seed, &mut srng, root, thorough, t, ctr);
+			for x in p {
+				problems.push(format!("script: {}", x));
+			}
+			ctr.add("script.opens.ok", o);
+			ctr.add("script.results.locked", l);
+			if o == 0 || l == 0 {
+				ctr.inc("script.cases_without_ok_and_locked");
+			}
+		}
 		let dir = fresh_dir(root, &format!("c18-{}", seed));
 		match scenario {
 			"threads" | "mixed" => {
@@ -442,7 +1091,7 @@ pub fn run(seeds: &[u64], thorough: bool, root: &Path, t: &mut Trace, ctr: &mut 
 		for p in &problems {
 			t.oracle_fail(prop, &format!("scenario={} {}", scenario, p));
 		}
-		t.op(&format!("c18 {}", scenario), if problems.is_empty() { "ok" } else { "fail" });
+		t.op(&format!("c18 scenario {}", scenario), if problems.is_empty() { "ok" } else { "fail" });
 		t.comment(&format!("ok_opens={} locked={}", ok_opens, locked));
 		ctr.inc("cases");
 		ctr.inc(&format!("scenario.{}", scenario));
